@@ -1,7 +1,7 @@
 (* Props/C16.v — property theorems only (C16: TLV and fixed-width codecs
    round-trip, refuse and terminate). *)
 From Coq Require Import List NArith ZArith.
-From N0 Require Import Base.PyStr Base.PyVal Codec.Util Codec.Tlv Codec.TlvProofs Codec.Fwf Codec.FwfProofs Codec.FwfFillerProofs.
+From N0 Require Import Base.PyStr Base.PyVal Codec.Util Codec.Tlv Codec.TlvProofs Codec.TlvInjective Codec.Fwf Codec.FwfProofs Codec.FwfFillerProofs.
 Import ListNotations.
 
 (* ---- TLV -------------------------------------------------------------------- *)
@@ -88,6 +88,24 @@ Theorem C16_int_of_dec :
   py_int (rjust (dec_of_N n) w pad) = Ok (Z.of_N n).
 Proof. exact py_int_rjust_dec. Qed.
 Print Assumptions C16_int_of_dec.
+
+(* Unambiguity: the emitted string determines the values (in order) and the
+   padded tags it was made from - two mappings emitted as the same string agree
+   on both, so no information but the tag padding is lost by encoding. *)
+Theorem C16_tlv_gen_injective :
+  forall tw lw tp lp m1 m2 s, lp = 48%N \/ lp = 32%N ->
+  gen_tlv tw lw tp lp m1 = Ok s -> gen_tlv tw lw tp lp m2 = Ok s ->
+  map snd m1 = map snd m2 /\
+  map (fun kv => ljust (fst kv) tw tp) m1 = map (fun kv => ljust (fst kv) tw tp) m2.
+Proof. exact tlv_gen_injective. Qed.
+Print Assumptions C16_tlv_gen_injective.
+
+Theorem C16_tlv_distinct_values_distinct_strings :
+  forall tw lw tp lp m1 m2 s1 s2, lp = 48%N \/ lp = 32%N ->
+  gen_tlv tw lw tp lp m1 = Ok s1 -> gen_tlv tw lw tp lp m2 = Ok s2 ->
+  map snd m1 <> map snd m2 -> s1 <> s2.
+Proof. exact tlv_distinct_values_distinct_strings. Qed.
+Print Assumptions C16_tlv_distinct_values_distinct_strings.
 
 (* Non-vacuity: a concrete mapping fits, is generated, parses back; an
    over-long tag is refused; a negative length is a ValueError. *)
